@@ -5,6 +5,7 @@ import AdaVerif.Model.UrlRec
 import AdaVerif.Model.Encode
 import AdaVerif.Model.AggSetters
 import AdaVerif.Model.UrlSetters
+import AdaVerif.Model.Protocol
 /- agg.edit <state> <editor> <hexarg> : apply one Model editor to a buffer-with-offsets state.
    state = buf,pe,ue,hs,he,port,ps,ss,hh,opq   (hex buffer, decimal offsets, '-' = omitted) -/
 namespace Driver
@@ -60,16 +61,7 @@ def applyEditor (a : Agg) (ed : String) (x : Bytes) (flags : Option (Bool × Boo
   | "add_authority_slashes_if_needed" => some (addAuthoritySlashes a)
   | "set_username" => some (setUsernameM 4000000000 isFile a x).1
   | "set_password" => some (setPasswordM 4000000000 isFile a x).1
-  | "set_protocol" =>
-    let t := Spec.stripTN (x ++ [0x3A])
-    match t with
-    | [] => some a
-    | c :: _ =>
-      if !isAsciiAlpha c then some a else
-      let name := t.takeWhile Spec.isSchemeChar
-      match t.drop name.length with
-      | 0x3A :: _ => some (setProtocolCoreM 4000000000 special isFile a (name.map toLowerByte)).1
-      | _ => some a
+  | "set_protocol" => some (setProtocolM 4000000000 special isFile a x).1
   | "set_port" =>
     let dflt := if special then Spec.defaultPort (getProtocol a).dropLast else none
     some (setPortM 4000000000 isFile dflt a x).1
@@ -139,6 +131,7 @@ def cmdUrlSet (a : List String) : String :=
       | "set_hash" => some (Model.UrlRec.setHashR L r v, true)
       | "set_search" => some (Model.UrlRec.setSearchR L r v, true)
       | "set_pathname" => some (Model.UrlRec.setPathnameR L t r v)
+      | "set_protocol" => some (Model.UrlRec.setProtocolR L t r v)
       | _ => none
     match res with
     | none => "bad-op"
